@@ -156,7 +156,12 @@ def write_file(path, j, n, ident, out_edges, paths, rng, link=False):
             if e["dangling"]:
                 locs = [str(loc.parent / f"missing_{e['dst']}.rtdc")]
             elif e["relative"]:
-                locs = [loc.name]
+                # relative to the referrer's directory (files may sit in different
+                # directories); sometimes behind an absolute location that no longer exists,
+                # as after moving the whole directory tree
+                import os as _os
+                rel = _os.path.relpath(loc, path.parent)
+                locs = [rel] if j % 2 else [str(loc.parent / "moved_away" / loc.name), rel]
             else:
                 locs = [str(loc)]
             hw.store_basin(basin_name=f"edge {e['src']}->{e['dst']} #{e['n']}",
@@ -207,6 +212,12 @@ def run_graph(ctx, idx, rng, tmp, k, pairs, edges, ids):
     import dclab
     n = int(rng.integers(2, 8))
     paths = [tmp / f"f{j}.rtdc" for j in range(k)]
+    if idx % 3 == 1:
+        # the files of the graph are spread over several directories
+        for sub in ("a", "b/c"):
+            (tmp / sub).mkdir(parents=True, exist_ok=True)
+        paths = [tmp / ["", "a", "b/c"][int(rng.integers(0, 3))] / f"f{j}.rtdc" for j in range(k)]
+        ctx.count("graphs_over_several_directories")
     # every fifth generated graph contains pure link files (never the root)
     links = set()
     if idx % 5 == 3 and k >= 2:
